@@ -232,6 +232,20 @@ def minimise(binp, prog, failing):
     return cur
 
 
+def via_foreign_copies(cases, kinds=("untrack", "batch"), every=1):
+    """for the cases whose program contains a `batch` / `untrack` statement: a copy that the driver runs as an `@F` scenario (those
+    statements are entered from inside a second, unrelated root). The model, the oracles and the property do not change"""
+    out = []
+    n = 0
+    for tag, prog in cases:
+        text = reactive.sx_stmts(prog)
+        if any("(%s " % k in text for k in kinds):
+            n += 1
+            if n % every == 0:
+                out.append((tag + "@F", reactive.ViaForeign(prog)))
+    return out
+
+
 def run(pid, argv, *, module, theorems, gen, oracle, rule, nontrivial, extra_targets=(), trusted=(), assumptions=(),
         level=None, allow_axioms=(), bridge=0, extra_obligations=None):
     if level is None:
